@@ -463,13 +463,35 @@ def r4_strict(R) -> None:
         raise Unsupported(f'{f.q}: strict guard not recognised')
     from fsa.match import conj_atoms
     atoms = {text(a) for a in conj_atoms(tn.ast)}
-    want = {"name != 'strict'", "self.__dict__['_strict']", "name not in self.__dict__['index']", "name not in self.__dict__['_attributes']"}
-    R.check(atoms == want, f.q, 'strict-guard:' + ';'.join(sorted(atoms))[:150],
-            'strict blocks exactly: a new name that is neither `strict`, a variable nor an existing attribute',
-            f'strict guard is {sorted(atoms)}; expected {sorted(want)}', where=f.where(tn))
+    # names that are properties with a setter on the container classes (`values`, `strict`): assigning to one is an update
+    # through its setter, never a new attribute - it must not be caught by the strict guard
+    props = set()
+    for q3, fi3 in R.repo.functions.items():
+        if q3.endswith('.setter') and fi3.cls is not None and (q3.startswith(VC + '.') or q3.startswith(MI + '.')):
+            props.add(fi3.node.name)
+    PROP_TEST = ('isinstance(getattr(type(self), name, None), property)', 'isinstance(getattr(self.__class__, name, None), property)')
+    by_property = [t for t in f.tests() if any(p_ in text(t.ast) for p_ in PROP_TEST) and t.id in f.dom[tn.id]]
+    exempt = set()
+    for a_ in atoms:
+        for p_ in props:
+            if a_ in (f"name != '{p_}'", f'name != "{p_}"'):
+                exempt.add(p_)
+    if any(p_ in a_ for a_ in atoms for p_ in PROP_TEST) or by_property:
+        exempt = set(props)
+    for p_ in sorted(props - exempt):
+        R.violation(f.q, f'strict-blocks-property:{p_}',
+                    f"with strict=True, `obj.{p_} = x` is rejected as a new attribute (AttributeError) although `{p_}` is a property with a setter: the bulk replacement of all values "
+                    f"works on a strict container only if it was used once before strict was switched on (the first use registers '{p_}' as an attribute)", where=f.where(tn))
+    core = {a_ for a_ in atoms if not any(a_ in (f"name != '{p_}'", f'name != "{p_}"') for p_ in props) and not any(p_ in a_ for p_ in PROP_TEST)}
+    want = {"self.__dict__['_strict']", "name not in self.__dict__['index']", "name not in self.__dict__['_attributes']"}
+    R.check(core == want, f.q, 'strict-guard:' + ';'.join(sorted(atoms))[:150],
+            'strict blocks exactly: a new name that is neither a property, a variable nor an existing attribute',
+            f'strict guard is {sorted(atoms)}; expected {sorted(want)} (plus the exemption of property names)', where=f.where(tn))
     for m, pred in (('add_attribute', lambda x: is_self_call(x, 'add_attribute')), ('super().__setattr__', lambda x: is_super_call(x, '__setattr__'))):
         ns = f.nodes_with(pred)
         for n in ns:
+            if any(f.holds(n.id, p_) for p_ in PROP_TEST):
+                continue        # the property branch: handled by the property's own setter
             R.check(tn.id in f.dom[n.id], f.q, f'strict-dominates:{m}', f'the strict guard precedes {m}', f'{m} can run without passing the strict guard',
                     where=f.where(n))
     av = R.repo.func(f'{VC}.add_variable')
